@@ -30,6 +30,11 @@ iface (s Spec) Kind() (k string)
   trusted
   pure
 
+ufunc specSuper(s int) int
+iface (s Spec) Super() (sup *supervisor.Supervisor)
+  pure
+  ensures ref(sup) == specSuper(ifaceVal(s))
+
 // the registry of filter kinds is filled at package initialisation; a validated spec names a registered kind
 func GetKind(name string) (k *Kind)
   trusted
@@ -49,5 +54,22 @@ func NewSpec(super *supervisor.Supervisor, pipeline string, rawSpec interface{})
 
 // closing a filter releases the filter's own resources; the pipeline's data is not a filter's to change
 iface (f Filter) Close()
+  flag allocates
+
+// creating and starting one filter instance (per-kind code: external to the pipeline's own wiring); the name an
+// instance reports is the name of the spec it was created from
+ufunc filterName(f int) string
+func Create(spec Spec) (f Filter)
+  trusted
+  flag allocates
+  ensures f != nil ==> ifaceVal(f) != 0 && filterName(ifaceVal(f)) == specName(ifaceVal(spec))
+iface (f Filter) Name() (n string)
+  pure
+  ensures n == filterName(ifaceVal(f))
+iface (f Filter) Init()
+  flag allocates
+iface (f Filter) Inherit(previousGeneration Filter)
+  flag allocates
+iface (r Resiliencer) InjectResiliencePolicy(policies map[string]resilience.Policy)
   flag allocates
 @*/
